@@ -152,6 +152,14 @@ func (m *module) checkEntryPoints() {
 		for _, xm := range m.modes[ep.Fn] {
 			if xm.Decode == "" {
 				modes[xm.Ops[1].Lit] = true
+				if mode := xm.Ops[1].Lit; mode == xmLocalSize || mode == xmLocalSizeId || mode == 18 /* LocalSizeHint */ {
+					m.fire("E4")
+					if n := len(xm.Ops) - 2; n != 3 {
+						m.fail("E4", "%s: execution mode %d takes exactly 3 operands, got %d", xm, mode, n)
+					} else if mode == xmLocalSize && (xm.Ops[2].Lit == 0 || xm.Ops[3].Lit == 0 || xm.Ops[4].Lit == 0) {
+						m.fail("E4", "%s: LocalSize %d x %d x %d has a zero dimension", xm, xm.Ops[2].Lit, xm.Ops[3].Lit, xm.Ops[4].Lit)
+					}
+				}
 			}
 		}
 		switch ep.Model {
